@@ -23,8 +23,7 @@ BUDGET = {'quick': 70, 'thorough': 1500}
 PROFILE = dc.PROFILE
 
 
-def names_of(symbols):
-    return {str(getattr(s, 'name', s)).lower().split('%')[0] for s in symbols}
+names_of = dc.names_of
 
 
 def callee_intents(case, stmt):
@@ -118,6 +117,8 @@ def check_case(case, ctx):
     dovars = dc.do_variables(case)
     kinds = set()
     nontrivial = False
+    if case.get('excluded_by_construction', True):
+        ctx.exclude(dc.EXCLUDED_BY_CONSTRUCTION)
     try:
         with dataflow_analysis_attached(routine):
             nodes = dc.map_nodes(routine, table)
@@ -154,13 +155,13 @@ def check_case(case, ctx):
 
                     def call_reason(v):
                         st = ent['stmt']
-                        actual_names = set()
-                        for a_ in list(st[2]) + list((st[3] if len(st) > 3 and st[3] else {}).values()):
-                            actual_names |= vars_in(a_)
-                        if v not in actual_names:
-                            return 'via-call:host-association-of-internal-procedure'
+                        actuals = list(st[2]) + list((st[3] if len(st) > 3 and st[3] else {}).values())
                         ints = callee_intents(case, st)
-                        return 'via-call:argument:dummy-intents=' + ','.join(sorted({str(i) for i in ints}))
+                        bound = sorted({str(ints[k]) if k < len(ints) else '?' for k, a_ in enumerate(actuals) if v in vars_in(a_)})
+                        if not bound:
+                            return 'via-call:host-association-of-internal-procedure'
+                        # the intent of the dummy the variable is bound to (one value unless it is passed twice)
+                        return 'via-call:argument:dummy-intent=' + bound[0]
 
                     for v in sorted(wr - defines):
                         if (p, 'defines', v) in explained:
@@ -177,7 +178,9 @@ def check_case(case, ctx):
                         if ent['kind'] == 'call':
                             reason = call_reason(v)
                             sig = f'C26:uses-misses-read-variable:CallStatement:{reason}'
-                        elif v in defines:
+                        elif dc.use_drop_cause(nodes[p], v) in ('may-define', 'definite-define'):
+                            # a child statement reports the use, an earlier sibling that defines v only on some paths
+                            # (or, not reachable at variable granularity, only partly) removed it from the block's set
                             sig = 'C26:uses-misses-read-variable:block:may-define-kills-use'
                         elif v in mem_query_args(header_exprs(ent['stmt'])):
                             sig = 'C26:uses-misses-read-variable:variable-also-argument-of-size-lbound-ubound-query'
